@@ -3,44 +3,78 @@ import Check.C06
 import Check.C07
 import Check.C08
 import Check.C19
+import Check.Sys
+import Check.C09
 /-! upfcheck: `upfcheck <property> <trace>` replays every case of the trace through the Lean model
-and the property oracle. Prints one line per problem (first 25 of each kind) and a summary. -/
+and the property oracle. Prints one line per problem and a summary. -/
 open Check
 
-def checker (prop : String) : Option (Nat → String → Verdict) :=
+structure Checker where
+  σ : Type
+  init : σ
+  step : σ → Nat → String → σ × List Verdict
+
+def stateless (f : Nat → String → Verdict) : Checker := ⟨Unit, (), fun _ n l => ((), [f n l])⟩
+
+/-- system-level traces: keep the correspondence mismatches and the oracle findings tagged with one of `tags` -/
+def sysChecker (tags : List String) : Checker :=
+  ⟨Sys.St, {}, fun st n l =>
+    let (st', fs) := Sys.step st n l
+    (st', fs.filterMap fun f =>
+      if f.prop = "model" then some (.mismatch f.msg)
+      else if f.prop = "bad" then some (.bad f.msg)
+      else if tags.contains f.prop then some (.oracle s!"[{f.prop}] {f.msg}")
+      else none)⟩
+
+def checker (prop : String) : Option Checker :=
   match prop with
-  | "C17" => some C17.check
-  | "C06" => some C06.check
-  | "C07" => some C07.check
-  | "C08" => some C08.check
-  | "C19" => some C19.check
+  | "C17" => some (stateless C17.check)
+  | "C06" => some (stateless C06.check)
+  | "C07" => some (stateless C07.check)
+  | "C08" => some (stateless C08.check)
+  | "C19" => some (stateless C19.check)
+  | "C03" => some (sysChecker ["C03", "C01"])
+  | "C02" => some (sysChecker ["C02", "C01", "C07"])
+  | "C05" => some (sysChecker ["C05", "C01"])
+  | "C14" => some (sysChecker ["C14", "C01"])
+  | "C09" => some ⟨Sys.St, {}, C09.step⟩
+  | "SYS" => some (sysChecker ["C01", "C02", "C03", "C05", "C07", "C14"])
   | _ => none
 
-partial def loop (h : IO.FS.Stream) (f : Nat → String → Verdict) (n ok mm orc bad : Nat) : IO (Nat × Nat × Nat × Nat × Nat) := do
+partial def loop (h : IO.FS.Stream) (c : Checker) (st : c.σ) (n ok mm orc bad : Nat) : IO (Nat × Nat × Nat × Nat × Nat) := do
   let line ← h.getLine
   if line.isEmpty then return (n, ok, mm, orc, bad)
   let line := line.trimAsciiEnd.toString
-  if line.isEmpty then loop h f n ok mm orc bad else
-  match f n line with
-  | .ok => loop h f (n+1) (ok+1) mm orc bad
-  | .mismatch msg =>
-    if mm < 3000 then IO.println s!"MISMATCH {n+1} :: {line.take 300} :: {msg}"
-    loop h f (n+1) ok (mm+1) orc bad
-  | .oracle msg =>
-    if orc < 3000 then IO.println s!"ORACLE {n+1} :: {line.take 300} :: {msg}"
-    loop h f (n+1) ok mm (orc+1) bad
-  | .bad msg =>
-    if bad < 25 then IO.println s!"BAD {n+1} :: {line.take 300} :: {msg}"
-    loop h f (n+1) ok mm orc (bad+1)
+  if line.isEmpty then loop h c st n ok mm orc bad else
+  let (st', vs) := c.step st n line
+  let mut ok := ok; let mut mm := mm; let mut orc := orc; let mut bad := bad
+  let mut clean := true
+  for v in vs do
+    match v with
+    | .ok => pure ()
+    | .mismatch msg =>
+      clean := false
+      if mm < 3000 then IO.println s!"MISMATCH {n+1} :: {line.take 300} :: {msg}"
+      mm := mm + 1
+    | .oracle msg =>
+      clean := false
+      if orc < 3000 then IO.println s!"ORACLE {n+1} :: {line.take 300} :: {msg}"
+      orc := orc + 1
+    | .bad msg =>
+      clean := false
+      if bad < 25 then IO.println s!"BAD {n+1} :: {line.take 300} :: {msg}"
+      bad := bad + 1
+  if clean then ok := ok + 1
+  loop h c st' (n+1) ok mm orc bad
 
 def main (args : List String) : IO UInt32 := do
   match args with
   | [prop, path] =>
     match checker prop with
     | none => IO.eprintln s!"no acceptor for {prop}"; return 2
-    | some f =>
+    | some c =>
       let h ← IO.FS.Handle.mk path .read
-      let (n, ok, mm, orc, bad) ← loop (IO.FS.Stream.ofHandle h) f 0 0 0 0 0
+      let (n, ok, mm, orc, bad) ← loop (IO.FS.Stream.ofHandle h) c c.init 0 0 0 0 0
       IO.println s!"SUMMARY cases={n} ok={ok} mismatch={mm} oracle={orc} bad={bad}"
       return (if mm + orc + bad = 0 then 0 else 1)
   | _ => IO.eprintln "usage: upfcheck <property> <trace>"; return 2
